@@ -9,10 +9,10 @@ E4_META = {
              "model, schedule, visiting order, seed, simulated clock and RNG fault kind; a run is non-trivial if at least one RNG/clock/"
              "history fault took effect or a call was refined step-by-step against the reference chain; distinct = distinct digests of "
              "the per-call event log (results, draw counts, clock reads, allocation counts)"),
-    "expected_probes": ["rng_passthrough_recorded", "rng_scripted", "rng_scripted_cycle", "history_repeat", "matrix_index_gap",
+    "expected_probes": ["rng_passthrough_recorded", "rng_scripted", "rng_scripted_cycle", "rng_raw_words_scripted", "history_repeat", "matrix_index_gap",
                         "single_variable", "no_variables", "empty_schedule", "seed_zero", "seed_none", "no_couplings"],
     "components": {"real": REAL_C + REAL_PY,
-                   "stub": ["rand_init/rand_double/rand_int entry points (pass-through-and-record or scripted)", "time() (simulated clock array)",
+                   "stub": ["rand_init/rand_double/rand_int entry points (pass-through-and-record or scripted)", "pcg32_random_r/pcg32_boundedrand_r as seen by random.c (real words, or scripted raw 32-bit words)", "time() (simulated clock array)",
                             "malloc/realloc/free (poison fill + red zones in the sim build; ASan in the san build)"]},
     "assumptions": ["integer / dyadic couplings so that all energies are exact in doubles", "reference Metropolis chain computes dE from two full exact evaluations",
                     "seed=None results in pass-through mode depend on a stack address and are excluded from digests (verdict only)"],
